@@ -28,6 +28,7 @@ import (
 	"fmt"
 	"io"
 	"net"
+	"runtime"
 	"sync"
 	"time"
 
@@ -315,6 +316,12 @@ func sysVariantRun(v sysVariant, g *hx.Gen, sz *sizer, dist map[string]int) (cas
 	// pingUntilReply: recorded phase-1 datagrams (may be lost, never duplicated / corrupted / misrouted) from
 	// user 0 every 100 ms until one of them is answered; then the outstanding ones drain
 	pingUntilReply := func(timeout time.Duration) bool {
+		if v.sudp && v.comp {
+			// the connections of the two visitors are set up on ONE processor (as on a single-CPU host): objects a
+			// connection put back into a sync.Pool are then handed to the very next Get, so wrappers recycled too
+			// early are shared by both connections deterministically instead of once in a while
+			defer runtime.GOMAXPROCS(runtime.GOMAXPROCS(1))
+		}
 		deadline := time.Now().Add(timeout)
 		pingers := []int{0}
 		if target2 != nil {
